@@ -53,7 +53,7 @@ impl Prop for C07 {
     }
     fn runs(&self, tier: Tier) -> u64 {
         match tier {
-            Tier::Quick => 1600,
+            Tier::Quick => 2400,
             Tier::Thorough => 20000,
         }
     }
